@@ -58,7 +58,11 @@ def absmax_scale(base: torch.Tensor, qtype: qtype = qint8, axis: Optional[int] =
         dim = axis_to_dim(base, axis)
         qranges = torch.amax(base, dim=dim, keepdim=True)
     info = dtype_info(qtype.dtype)
-    return qranges / info.max
+    scale = qranges / info.max
+    # A null scale (all-zero values, or a range too small for the dtype) would produce NaN when dividing by it:
+    # the smallest positive scale fits such values
+    finfo = torch.finfo(scale.dtype)
+    return torch.clamp(scale, min=finfo.tiny * finfo.eps)
 
 
 class Calibration(TorchFunctionMode):
